@@ -21,6 +21,8 @@ def evStr : Ev → String
   | .anext .fin => "anext=false"
   | .anext .nomore => "anext=nomore"
   | .anext _ => "anext=true"
+  | .sub .fin => "sub=false"
+  | .sub i => s!"sub={itemStr i}"
   | .fawait i => s!"fawait={itemStr i}"
   | .fhas b => s!"fhas={tf b}"
   | .dtor g => s!"~g{g}"
@@ -39,16 +41,33 @@ def parseAct (w : String) : Option Act :=
   | 'x' => some .ret
   | _ => none
 
-/-- driver state: the model state plus the events printed so far on the current line -/
+/-- driver state: the model state, the events printed so far on the current line, and the state of the consumer's callback
+awaiter (`subr n a`: how many more times it re-arms itself from inside the notification, and with which argument) -/
 structure D where
   s : State
   out : Array String := #[]
+  chainLeft : Nat := 0
+  chainArg : Nat := 0
 
-/-- one primitive model step; new model events are appended to the line -/
-def prim (d : D) (op : Op) : D × Res :=
-  let n := d.s.evs.length
-  let (s', r) := step d.s op
-  ({ s := s', out := d.out ++ ((s'.evs.drop n).map evStr).toArray }, r)
+def isSubVal : Ev → Bool
+  | .sub (.val _) => true
+  | _ => false
+
+/-- one primitive model step; new model events are appended to the line. If the step called the consumer's callback with a value
+and the callback still has re-arms left, its re-entrant `next(a+1).subscribe(this)` is the next step (see `subGo`). -/
+def primF : Nat → D → Op → D × Res
+  | 0, d, _ => (d, .bad)
+  | fuel + 1, d, op =>
+      let n := d.s.evs.length
+      let (s', r) := step d.s op
+      let newEvs := s'.evs.drop n
+      let d1 : D := { d with s := s', out := d.out ++ (newEvs.map evStr).toArray }
+      if newEvs.any isSubVal && d1.chainLeft > 0 then
+        let d2 : D := { d1 with chainLeft := d1.chainLeft - 1, chainArg := d1.chainArg + 1 }
+        ((primF fuel d2 (.sub d2.chainArg)).1, r)
+      else (d1, r)
+
+def prim (d : D) (op : Op) : D × Res := primF (d.s.script.length + 4) d op
 
 /-- the helper thread completes the operation the body awaits -/
 def help (d : D) : Option D :=
@@ -154,6 +173,20 @@ def doLine (d : D) (ws : List String) : D × String :=
   | "next" :: _ => let (d', r) := syncOp d (.syncBegin (argOf ws)); (d', "next" ++ resStr r)
   | ["value"] => let (d', r) := prim d .value; (d', "value" ++ resStr r)
   | "anext" :: _ => let (d', r) := prim d (.anext (argOf ws)); (d', "anext" ++ resStr r)
+  | "sub" :: _ =>
+      if !d.s.alive || d.s.caller != .none then
+        let (d', r) := prim d (.sub (argOf ws)); (d', "sub" ++ resStr r)
+      else
+        let d0 : D := { d with chainLeft := 0, chainArg := argOf ws }
+        let (d', r) := prim d0 (.sub (argOf ws)); (d', "sub" ++ resStr r)
+  | "subr" :: _ =>
+      let a := (natArg ws 2).getD 0
+      -- a rejected operation does not touch the callback object
+      if !d.s.alive || d.s.caller != .none then
+        let (d', r) := prim d (.sub a); (d', "subr" ++ resStr r)
+      else
+        let d0 : D := { d with chainLeft := argOf ws, chainArg := a }
+        let (d', r) := prim d0 (.sub a); (d', "subr" ++ resStr r)
   | "call" :: _ => let (d', r) := prim d (.call (argOf ws)); (d', "call" ++ resStr r)
   | ["fwait"] => let (d', r) := fwaitOp d (fuelOf d); (d', "fwait" ++ resStr r)
   | ["fget"] => let (d', r) := prim d .futGet; (d', "fget" ++ resStr r)
